@@ -175,6 +175,16 @@ func (f *Frame) modKeysStatic(con *Contract, callee *ssa.Function, sig *types.Si
 			continue
 		}
 		ok := false
+		if sel, isSel := ex.(*ast.SelectorExpr); isSel {
+			if id, isId := sel.X.(*ast.Ident); isId && id.Name == "ghost" {
+				if srt, known := parsedGhosts[sel.Sel.Name]; known {
+					key := "X:ghost." + sel.Sel.Name
+					f.vc.compSrt[key] = normSort(srt)
+					keys[key] = true
+					continue
+				}
+			}
+		}
 		switch n := ex.(type) {
 		case *ast.SelectorExpr:
 			if t := typeOf(n.X); t != nil {
@@ -332,8 +342,6 @@ func (f *Frame) loopModifies(l *Loop) map[string]bool {
 				case *ssa.Defer:
 					scanCall(&x.Call, depth)
 				case *ssa.Go:
-					keys["*"] = true
-				case *ssa.Select:
 					keys["*"] = true
 				case *ssa.Alloc:
 					if x.Heap {
